@@ -196,28 +196,51 @@ class Code310(Code38):
         co_linetable into the compacted 3.10-encoded format described
         in lnotab_notes.txt.
 
+        Each entry of that format is (length of a bytecode range, line
+        increment): the increment is applied first, and the resulting
+        line is the line of the range. So an (offset, line_number) pair
+        describes the range from its offset up to the next pair's offset,
+        or to the end of the bytecode for the last pair.
         """
         co_linetable = b""
 
+        pairs = list(self.co_linetable)
         prev_line_number = self.co_firstlineno
-        prev_offset = 0
-        offset_diff = 0
+        code_len = len(self.co_code)
 
-        for offset, line_number in self.co_linetable:
-            line_diff = line_number - prev_line_number
-            prev_line_number = line_number
-            offset_diff = offset - prev_offset
-            prev_offset = offset
-            while offset_diff >= 256:
-                co_linetable += bytearray([255, 0])
-                offset_diff -= 255
-            co_linetable += bytearray([offset_diff, line_diff % 256])
-            while line_diff >= 127:
-                co_linetable += bytearray([0, 127])
+        def emit(length, line_diff):
+            table = b""
+            # Long line jumps: ranges of length zero that only move the line
+            while line_diff > 127:
+                table += bytearray([0, 127])
                 line_diff -= 127
             while line_diff < -127:
-                co_linetable += bytearray([0, -127])
-                line_diff -= 127
+                table += bytearray([0, -127 & 0xFF])
+                line_diff += 127
+            # Long ranges: the continuation ranges stay on the same line.
+            # A range length is an even number of at most 254.
+            while length > 254:
+                table += bytearray([254, line_diff & 0xFF])
+                line_diff = 0
+                length -= 254
+            table += bytearray([length, line_diff & 0xFF])
+            return table
+
+        if pairs and pairs[0][0] > 0:
+            # bytecode before the first given offset has no line number
+            length = pairs[0][0]
+            while length > 254:
+                co_linetable += bytearray([254, -128 & 0xFF])
+                length -= 254
+            co_linetable += bytearray([length, -128 & 0xFF])
+
+        for i, (offset, line_number) in enumerate(pairs):
+            if i + 1 < len(pairs):
+                end = pairs[i + 1][0]
+            else:
+                end = max(code_len, offset)
+            co_linetable += emit(end - offset, line_number - prev_line_number)
+            prev_line_number = line_number
 
         self.co_linetable = co_linetable
 
